@@ -8,7 +8,7 @@ PROPS = "C16"
 RULE = ("every offending header form (white space before the name: SP/HTAB, obsolete folding after another header; inside the "
         "name; between name and colon; a line of blanks only, last or in the middle of the head) on framing-relevant and ordinary names, and every Content-Length value class (empty, "
         "signed, non-digit, list, blank-separated, hex, decimal point, >= 2^64, 23 digits) with and without Transfer-Encoding, at "
-        "every position of pipelines of 1..3, each followed by a would-be smuggled request; non-trivial = all; distinct = lines")
+        "every position of pipelines of 1..3 (also behind 100..1000 ordinary header fields), each followed by a would-be smuggled request; non-trivial = all; distinct = lines")
 ASSUMPTIONS = ["the client half-closes after sending; Unix sockets for bulk, a TCP sample"]
 
 WS_FORMS = []
@@ -30,6 +30,12 @@ def offending(form, kind, tag):
         # after an ordinary header, so that a leading blank is obsolete line folding
         return ("POST %s HTTP/1.1\r\nX-First: a\r\n%s\r\n\r\n" % (t, form)).encode("latin-1") + b"hello"
     return None
+
+
+def padded(bad, count):
+    """the offending request with `count` well-formed header fields inserted right behind its request line"""
+    i = bad.index(b"\r\n") + 2
+    return bad[:i] + b"".join(b"X-Pad-%d: v\r\n" % j for j in range(count)) + bad[i:]
 
 
 def build(rng, n, k, bad, kind, transport="u"):
@@ -84,6 +90,10 @@ def gen(tier, rng):
                     yield build(rng, n, k, bad, kind)
     for bad, kind in list(all_bad())[::7]:
         yield build(rng, 2, 1, bad, kind, transport="t")
+    # the offending line comes after 100 / 150 / 1000 ordinary header fields
+    for idx, (bad, kind) in enumerate(all_bad()):
+        if idx % (3 if tier == "quick" else 1) == 0:
+            yield build(rng, 2, rng.below(2), padded(bad, rng.choice([100, 101, 150, 1000])), kind + "+padded")
 
 
 def nontrivial(case, mo):
